@@ -136,12 +136,20 @@ def check_history(res, rng, files):
     """One front-end object, its filters changed between requests (and the files alternated): every request must
     honour the filters as they are set at that moment."""
     from pykdebugparser.pykdebugparser import PyKdebugParser
+    import copy
     p = PyKdebugParser()
     trail = []
     cur = {'tid': None, 'classes': [], 'subs': []}
     for step in range(rng.randrange(2, 7)):
         f = rng.choice(files)
         new = gen_config(rng, f)
+        if step and rng.random() < 0.3:
+            # the object serving the next requests is a COPY of the configured one (copy.copy / copy.deepcopy: a template
+            # with the display options, one derived object per listing); the settings changed on it are its own, so the
+            # lists are re-assigned, never edited in place, right after a shallow copy
+            p = copy.copy(p) if rng.random() < 0.6 else copy.deepcopy(p)
+            p.filter_class, p.filter_subclass = copy.copy(p.filter_class), copy.copy(p.filter_subclass)
+            res.count('history_objects_derived_by_copy')
         # a caller changes any non-empty subset of the three settings, in any order; what it leaves alone stays as set
         attrs = rng.sample(('tid', 'classes', 'subs'), rng.choice((1, 1, 2, 3))) if step else ['tid', 'classes', 'subs']
         if step and rng.random() < 0.4:
